@@ -210,6 +210,18 @@ class World:
             ev["o"] = {"latf": lat, "lonf": lon, "zonearg": zone, "ell": {"name": ell[0]}, "prj": {"name": prj[0]}}
         return ev
 
+    def tma_event(self, lat, lon, zone, ell, prj, tag):
+        """forward + inverse at ANY latitude / longitude (exact TM oracle with the specification's sines and cosines)"""
+        ev = {"k": "TMA", "exc": "", "tag": tag}
+        try:
+            o = self.observe(lat, lon, zone, ell, prj)
+            o["n0"] = fix.enc(1.0 / (2.0 * float(ell[1].inversef) - 1.0))
+            ev["o"] = o
+        except Exception as ex:
+            ev["exc"] = "%s: %s" % (type(ex).__name__, str(ex)[:100])
+            ev["o"] = {"latf": lat, "lonf": lon, "zonearg": zone, "ell": {"name": ell[0]}, "prj": {"name": prj[0]}}
+        return ev
+
     def zone_event(self, lon100, lat, prj, tag):
         (pn, P) = prj
         ev = {"k": "ZONE", "exc": "", "tag": tag, "o": {"lon100": lon100, "zw": int(P.zonewidth), "cm1": int(P.initialcm), "zone": 0}}
@@ -280,7 +292,7 @@ def validate(traces, ctx, label):
 
 def describe_event(ev):
     k = ev["k"]
-    if k in ("P", "CM", "TM"):
+    if k in ("P", "CM", "TM", "TMA"):
         o = ev["o"]
         return {"lat": o.get("latf"), "lon": o.get("lonf"), "zonearg": o.get("zonearg"), "ell": o["ell"]["name"], "prj": o["prj"]["name"],
                 "fwd": o.get("fwd", {}).get("hex", ""), "inv_exc": o.get("inv", {}).get("exc", "")}
